@@ -18,11 +18,12 @@
 (*                                                                                      *)
 (* Text is a sequence of code points.  Lex(text) = [t |-> tokens, e |-> first error].   *)
 (* A token is [k |-> kind, s |-> code points]; kinds: "tag" (s without '_'), "val",     *)
-(* "data" (s = block name), "save", "loop", "stop", "global".  CR is not modelled as a  *)
-(* character of values (DESIGN 3.4): any code point outside {HT, LF, 32..126} is an      *)
-(* error - with one exception: CIF 1.1 counts a bare CR as a line terminator, so a CR    *)
-(* inside a comment ENDS the comment and whatever follows it on the line is read as data *)
-(* (this is how comment text with CR or CR LF line ends can leak into the data).         *)
+(* "data" (s = block name), "save", "loop", "stop", "global".  CIF 1.1 has three line  *)
+(* terminators, LF, CR LF and a bare CR: a CR acts exactly like an LF (and the LF of a   *)
+(* CR LF pair is swallowed), so a CR inside a comment ENDS the comment, a CR inside a    *)
+(* quoted string is an error, a CR inside a text field is a line break of the value and  *)
+(* CR ';' closes a text field.  Values are therefore compared after NormalizeBreaks.     *)
+(* Any other code point outside {HT, LF, CR, 32..126} is an error.                       *)
 EXTENDS Integers, Sequences, FiniteSets, SequencesExt
 
 HT == 9    LF == 10   CR == 13   SP == 32   DQ == 34   HASH == 35   DOLLAR == 36   SQ == 39
@@ -48,10 +49,10 @@ KwGlobal == <<103, 108, 111, 98, 97, 108, 95>> \* global_
 HasLfSemi(s) == \E i \in 1..(Len(s) - 1) : s[i] = LF /\ s[i+1] = SEMI
 HasChar(s, c) == \E i \in 1..Len(s) : s[i] = c
 
-(* Remove leading and trailing blanks (SP, HT, LF): "strings are recovered up to       *)
+(* Remove leading and trailing blanks (SP, HT, LF, CR): "strings are recovered up to   *)
 (* surrounding blanks".                                                                *)
 Strip(s) ==
-    LET nb == { i \in 1..Len(s) : ~IsBlank(s[i]) }
+    LET nb == { i \in 1..Len(s) : ~(IsBlank(s[i]) \/ s[i] = CR) }
     IN IF nb = {} THEN <<>>
        ELSE LET lo == CHOOSE i \in nb : \A j \in nb : i <= j
                 hi == CHOOSE i \in nb : \A j \in nb : i >= j
@@ -64,7 +65,7 @@ Strip(s) ==
 (* word, "sq"/"dq" inside a quoted string, "sqe"/"dqe" just after a quote character    *)
 (* that closes the string iff the next character is blank, "tf" text field, "tfl" text *)
 (* field just after an eol, "tfe" just after the closing ';' of a text field.          *)
-L0 == [m |-> "ws", b |-> <<>>, t |-> <<>>, bol |-> TRUE, e |-> ""]
+L0 == [m |-> "ws", b |-> <<>>, t |-> <<>>, bol |-> TRUE, e |-> "", cr |-> FALSE]   \* cr: the previous character was a CR
 
 Err(st, msg) == IF st.e = "" THEN [st EXCEPT !.e = msg] ELSE st
 
@@ -124,10 +125,11 @@ StepLegal(st, c) ==
                                   "text_field_terminator_not_followed_by_blank")
 
 Step(st, c) ==
-    IF IsLegal(c) THEN StepLegal(st, c)
-    ELSE IF c = CR /\ st.m = "com" THEN [st EXCEPT !.m = "ws", !.bol = TRUE]   \* end of line, end of comment
-    ELSE IF c > 126 THEN Err(st, "non_ascii_character")
-    ELSE Err(st, "control_character")
+    IF c = CR THEN [StepLegal(st, LF) EXCEPT !.cr = TRUE]            \* a line terminator like LF
+    ELSE IF c = LF /\ st.cr THEN [st EXCEPT !.cr = FALSE]             \* the LF of a CR LF pair
+    ELSE IF IsLegal(c) THEN [StepLegal(st, c) EXCEPT !.cr = FALSE]
+    ELSE IF c > 126 THEN Err([st EXCEPT !.cr = FALSE], "non_ascii_character")
+    ELSE Err([st EXCEPT !.cr = FALSE], "control_character")
 
 Finish(st) ==
     CASE st.m = "uq" -> EmitUq(st)
@@ -140,9 +142,15 @@ Lex(text) == LET st == Finish(FoldLeft(Step, L0, text)) IN [t |-> st.t, e |-> st
 
 -----------------------------------------------------------------------------
 (* Reference quoting: for every string that CIF 1.1 can carry there is a way to write  *)
-(* it.  Representable = printable ASCII + HT + LF and no LF immediately followed by    *)
-(* ';'.  SafeQuote(v) = [txt |-> characters, own |-> must start in column 1].          *)
-Representable(v) == (\A i \in 1..Len(v) : IsLegal(v[i])) /\ ~HasLfSemi(v)
+(* it.  Representable = printable ASCII + HT + LF + CR and no line end immediately     *)
+(* followed by ';'.  SafeQuote(v) = [txt |-> characters, own |-> must start in column 1].          *)
+(* CR LF and bare CR read as LF: what a value is "up to the spelling of its line ends" *)
+(* (not recursive: the judge applies it to values of several hundred characters) *)
+NormalizeBreaks(c) ==
+    LET idx  == [i \in 1..Len(c) |-> i]
+        kept == SelectSeq(idx, LAMBDA i : ~(c[i] = LF /\ i > 1 /\ c[i - 1] = CR))    \* the LF of a CR LF pair goes
+    IN [k \in 1..Len(kept) |-> IF c[kept[k]] = CR THEN LF ELSE c[kept[k]]]
+Representable(v) == (\A i \in 1..Len(v) : IsLegal(v[i]) \/ v[i] = CR) /\ ~HasLfSemi(NormalizeBreaks(v))
 
 StartsReserved(v) ==
     LET lv == LowerSeq(v) IN
@@ -159,7 +167,7 @@ CanBeUnquoted(v) ==
 QuoteThenBlank(v, q) == \E i \in 1..(Len(v) - 1) : v[i] = q /\ IsBlank(v[i+1])
 
 SafeQuote(v) ==
-    IF HasChar(v, LF) THEN [txt |-> <<SEMI>> \o v \o <<LF, SEMI>>, own |-> TRUE]
+    IF HasChar(v, LF) \/ HasChar(v, CR) THEN [txt |-> <<SEMI>> \o v \o <<LF, SEMI>>, own |-> TRUE]
     ELSE IF CanBeUnquoted(v) THEN [txt |-> v, own |-> FALSE]
     ELSE IF ~QuoteThenBlank(v, SQ) THEN [txt |-> <<SQ>> \o v \o <<SQ>>, own |-> FALSE]
     ELSE IF ~QuoteThenBlank(v, DQ) THEN [txt |-> <<DQ>> \o v \o <<DQ>>, own |-> FALSE]
@@ -168,7 +176,7 @@ SafeQuote(v) ==
 (* The quoting rule of a writer that only looks for blanks and quote characters        *)
 (* (negative control: TLC must find strings for which it is wrong).                     *)
 NaiveQuote(v) ==
-    IF HasChar(v, LF) THEN [txt |-> <<SEMI, SP>> \o v \o <<LF, SEMI>>, own |-> TRUE]
+    IF HasChar(v, LF) \/ HasChar(v, CR) THEN [txt |-> <<SEMI, SP>> \o v \o <<LF, SEMI>>, own |-> TRUE]
     ELSE IF HasChar(v, SQ) /\ HasChar(v, DQ)
          THEN [txt |-> <<SEMI, SP>> \o v \o <<LF, SEMI>>, own |-> TRUE]
     ELSE IF HasChar(v, SQ) THEN [txt |-> <<DQ>> \o v \o <<DQ>>, own |-> FALSE]
@@ -187,11 +195,6 @@ CommentLines(c) ==
               IN <<HASH, SP>> \o SubSeq(c, 1, i - 1) \o <<LF>> \o CommentLines(SubSeq(c, i + 1, Len(c)))
 
 (* the same for comment text whose lines end in CR LF or in a bare CR *)
-RECURSIVE NormalizeBreaks(_)
-NormalizeBreaks(c) ==
-    IF c = <<>> THEN <<>>
-    ELSE IF c[1] = CR THEN <<LF>> \o NormalizeBreaks(IF Len(c) >= 2 /\ c[2] = LF THEN SubSeq(c, 3, Len(c)) ELSE Tail(c))
-    ELSE <<c[1]>> \o NormalizeBreaks(Tail(c))
 CommentLinesAnyBreak(c) == CommentLines(NormalizeBreaks(c))
 
 TagT == <<US, 116>>   \* _t
